@@ -100,11 +100,32 @@ func (s *Storage) Hashes(prefs []Prefix) (hashes []string) {
 
 // Matches returns true if the host matches one of the hashes.
 func (s *Storage) Matches(host string) (ok bool) {
+	return matches(*s.hashSuffixes.Load(), host)
+}
+
+// MatchesAny returns the first of hosts that matches one of the hashes, or an
+// empty string if none of them does.  All hosts are checked against the same
+// version of the hashes, so that a concurrent [Storage.Reset] cannot make hosts
+// that have a match both before and after the reset appear unmatched.
+func (s *Storage) MatchesAny(hosts []string) (matched string) {
+	hashSuffixes := *s.hashSuffixes.Load()
+	for _, host := range hosts {
+		if matches(hashSuffixes, host) {
+			return host
+		}
+	}
+
+	return ""
+}
+
+// matches returns true if the host matches one of the hashes in hashSuffixes.
+// hashSuffixes must not be modified.
+func matches(hashSuffixes suffixMap, host string) (ok bool) {
 	sum := sha256.Sum256([]byte(host))
 	pref := Prefix(sum[:PrefixLen])
 
 	var buf [hashLen]byte
-	hashSufs, ok := s.loadHashSuffixes(pref)
+	hashSufs, ok := hashSuffixes[pref]
 	if !ok {
 		return false
 	}
@@ -118,15 +139,6 @@ func (s *Storage) Matches(host string) (ok bool) {
 	}
 
 	return false
-}
-
-// loadHashSuffixes returns hash suffixes for the given prefix.  It is safe for
-// concurrent use.  sufs must not be modified.
-func (s *Storage) loadHashSuffixes(pref Prefix) (sufs []suffix, ok bool) {
-	suffixes := *s.hashSuffixes.Load()
-	sufs, ok = suffixes[pref]
-
-	return sufs, ok
 }
 
 // Reset resets the hosts in the index using the domain names listed in
